@@ -63,12 +63,27 @@ func c17Outside(g *Gen) ap.Item {
 	}
 }
 
+// asObj reads the two instants of an item by reflection (no library call): nil for the nil item, a typed nil pointer and
+// anything that is not one of the struct kinds with Published / Updated
 func asObj(it ap.Item) *ap.Object {
-	if ap.IsNil(it) {
+	if it == nil {
 		return nil
 	}
-	o, _ := ap.ToObject(it)
-	return o
+	rv := reflect.ValueOf(it)
+	if rv.Kind() == reflect.Pointer {
+		if rv.IsNil() {
+			return nil
+		}
+		rv = rv.Elem()
+	}
+	if rv.Kind() != reflect.Struct {
+		return nil
+	}
+	p, u := rv.FieldByName("Published"), rv.FieldByName("Updated")
+	if !p.IsValid() || !u.IsValid() {
+		return nil
+	}
+	return &ap.Object{Published: p.Interface().(time.Time), Updated: u.Interface().(time.Time)}
 }
 
 func runC17(seed int64, n int, tier string, outDir string) (*Report, error) {
@@ -171,9 +186,11 @@ func runC17(seed int64, n int, tier string, outDir string) (*Report, error) {
 			rep.Evaluations++
 			if first == nil {
 				first = k
+				// newest first, judged on the keys read by reflection (nil-like items first): never on the comparison under test
 				for j := 1; j < len(c); j++ {
-					if ap.ItemOrderTimestamp(c[j], c[j-1]) {
-						rep.Violate(Violation{Op: "sort", Input: k, Expected: "newest first", Observed: "out of order", Index: i})
+					a, b := asObj(c[j-1]), asObj(c[j])
+					if (a != nil && b == nil) || (a != nil && b != nil && refKey(b).Compare(refKey(a)) > 0) {
+						rep.Violate(Violation{Op: "sort", Input: k, Expected: "nil-like items first, then newest first", Observed: "out of order", Index: i})
 					}
 				}
 			} else if fmt.Sprint(first) != fmt.Sprint(k) {
